@@ -80,11 +80,22 @@ def main(tier):
         for viol in o["archive"]["violations"]:
             v.violation(dict(check="transfer-archive", kind=viol["kind"], stack=viol["par"]["stack"]),
                         dict(engine="transfer", detail=viol))
+    # INTERACTION request size x short source at production constants: files of several chunks read with buffers of
+    # 1 MiB + 1 / 2 MiB / 5 MiB and read_to_end, and repaired, from sources returning at most 1 / 4095 / 64 KiB /
+    # chunk-1 / chunk+tag+1 / 1 MiB bytes per read
+    bo = os.path.join(wd, "bigio.json")
+    mbt("prod", "transfer", "bigio", bo, timeout=3600)
+    big = json.load(open(bo))
+    for viol in big["violations"]:
+        v.violation(dict(check="transfer-archive", kind=viol["kind"], stack=viol["par"]["stack"]),
+                    dict(engine="transfer", mode="bigio", detail=viol))
+    narch += big["runs"]
+    ev["bigio_runs"] = big["runs"]
     log(f"[C13] EncWriter: {len(edges)} edges in {lay['runs']} runs replayed ({lay['drifts']} drifts); "
         f"{narch} archive runs (write throttled / read + repair from short source) with {len(scheds)} schedules")
     cov = dict(states=r.distinct, transitions=r.generated, traces_validated_against_impl=lay["runs"] + narch,
                samples=(lay["samples"][:1] + outs[0]["archive"]["samples"][:1]) or ["none"],
-               edges_exported=len(edges), layer_runs=lay["runs"], archive_runs=narch, schedules=scheds[:4],
+               edges_exported=len(edges), layer_runs=lay["runs"], archive_runs=narch, big_request_short_source_runs=ev.get("bigio_runs"), schedules=scheds[:4],
                drift=lay["drifts"], tlc_runs=ev["tlc"], constants=outs[0]["constants"],
                exhaustive=(lay["drifts"] == 0 and not v.violations),
                rule="EncWriter model: every interleaving of caller writes, partial accepts and Interrupted (bounded) checked by "
